@@ -50,6 +50,12 @@ fn probes() -> Vec<String> {
     v.push("a|".repeat(100_000));
     v.push("a".repeat(1_000_000));
     v.push("(?=)a|".repeat(20_000));
+    // long alternations that the VM compiles itself (hard branches without delegates), alone and
+    // inside a group that a backreference refers to
+    for n in [2_000usize, 20_000, 200_000] {
+        v.push(format!("{}\\bw", "\\bw|".repeat(n)));
+        v.push(format!("({}w) \\1", "w|".repeat(n)));
+    }
     for n in [10usize, 100, 1000, 10_000, 100_000] {
         v.push(format!("\\w{{{}}}", n));
         v.push(format!("(?=)\\w{{{}}}", n));
